@@ -386,6 +386,20 @@ func (self *visitorUserNode) OnFloat64(v float64, n json.Number) error {
 		if err = self.p.WriteInt64(convertData); err != nil {
 			return err
 		}
+	// integers above MaxInt64 are delivered as float64 by the parser: take the exact value from the literal
+	case proto.Uint64Kind, proto.Fixed64Kind:
+		convertData, perr := strconv.ParseUint(string(n), 10, 64)
+		if perr != nil {
+			return newError(meta.ErrDismatchType, "param isn't uint64", perr)
+		}
+		if fieldDesc.Kind() == proto.Uint64Kind {
+			err = self.p.WriteUint64(convertData)
+		} else {
+			err = self.p.WriteFixed64(convertData)
+		}
+		if err != nil {
+			return err
+		}
 	default:
 		return newError(meta.ErrDismatchType, "param isn't floatType", nil)
 	}
